@@ -54,6 +54,8 @@ ALPHABET = [
     # a compiled comparison inside a function, applied to a flat list and then to a list with a one-element inner list
     # (the per-node memo was made for the first; an object array goes through NumPy's truth-value comparison)
     'h::{[t];t::x=1;t}', 'h([1 2 3])', 'h([1 [1]])',
+    # a ragged list (an object array: copying it copies only the outer level) amended in depth
+    'u::[[1 2] [3 4 5]]', 'b::u:-9,[0 1]',
 ]
 
 # depth-4 alphabet of the thorough tier when the full one does not fit (see run()): one representative per mechanism
